@@ -47,6 +47,14 @@ def insAll (m : Map κ ν) (ks : List κ) (v : ν) : Map κ ν := ks.foldl (fun 
 
 def delAll (m : Map κ ν) (ks : List κ) : Map κ ν := ks.foldl (fun m k => del m k) m
 
+/-- the entries a KV-store iteration yields: one per key, the one `find` returns (for maps built with `ins` / `del`
+this is the list itself) -/
+def entriesAux (seen : List κ) : Map κ ν → Map κ ν
+  | [] => []
+  | (k, v) :: t => if seen.contains k then entriesAux seen t else (k, v) :: entriesAux (k :: seen) t
+
+def entries (m : Map κ ν) : Map κ ν := entriesAux [] m
+
 end Map
 
 /-! ### data -/
@@ -340,7 +348,8 @@ def mintingEnabled (r : Reg Id) (tokenHex denomHex : String) : Option Pair :=
 /-- msg_server.go ConvertCoin / ConvertERC20 as far as the registry is concerned: the pair of a contract that no longer
 exists is deleted (and the message succeeds so that the deletion persists); otherwise the conversion runs and does not
 touch the registry. `live` = the addresses that currently hold contract code. -/
-def convert (r : Reg Id) (tokenHex denomHex : String) (live : List Addr) : Reg Id × Status :=
+def convert (r : Reg Id) (vb : Bool) (tokenHex denomHex : String) (live : List Addr) : Reg Id × Status :=
+  if !vb then (r, .rej) else                                  -- MsgConvertCoin / MsgConvertERC20 .ValidateBasic
   match mintingEnabled r tokenHex denomHex with
   | none => (r, .rej)
   | some p =>
@@ -348,40 +357,6 @@ def convert (r : Reg Id) (tokenHex denomHex : String) (live : List Addr) : Reg I
     match deleteTokenPair H r p with
     | none => (r, .panic)
     | some r' => (r', .del)
-
-/-! ### actions and runs -/
-
-inductive Action where
-  | setParams (enable : Bool)
-  | bankMeta (m : Meta)                  -- environment: some other module / genesis writes bank metadata
-  | registerCoin (vb hasSupply isEvmDenom deployOk : Bool) (deployAddr : Addr) (deployStr : String) (m : Meta)
-  | addCoin (vb hasSupply isEvmDenom : Bool) (contractHex : String) (m : Meta)
-  | registerERC20 (vb : Bool) (addr : Addr) (addrStr : String) (q : Option ERC20Data) (sanitized denom desc : String) (mdValid : Bool)
-  | toggle (vb : Bool) (tokenHex : String)
-  | update (vb : Bool) (old new : Addr) (newStr : String) (q : Option ERC20Data) (descOld descNew : String)
-  | convert (tokenHex denomHex : String) (live : List Addr)
-  deriving Repr
-
-/-- one governance action / conversion message; `fixed` selects the repaired UpdateTokenPairERC20 -/
-def stepWith (fixed : Bool) (r : Reg Id) : Action → Reg Id × Status
-  | .setParams b => ({ r with enabled := b }, .ok)
-  | .bankMeta m => ({ r with metas := r.metas.ins m.base m }, .ok)
-  | .registerCoin vb hs ev dk a as m => registerCoin H r vb hs ev dk a as m
-  | .addCoin vb hs ev c m => addCoin H r vb hs ev c m
-  | .registerERC20 vb a as q s d ds mv => registerERC20 H r vb a as q s d ds mv
-  | .toggle vb t => toggleRelay H r vb t
-  | .update vb o n ns q d1 d2 => if fixed then updateERC20 H r vb o n ns q d1 d2 else updateERC20Orig H r vb o n ns q d1 d2
-  | .convert t d l => convert H r t d l
-
-def step (r : Reg Id) (a : Action) : Reg Id × Status := stepWith H true r a
-def stepOrig (r : Reg Id) (a : Action) : Reg Id × Status := stepWith H false r a
-
-def runWith (fixed : Bool) (r : Reg Id) : List Action → Reg Id
-  | [] => r
-  | a :: as => runWith fixed (stepWith H fixed r a).1 as
-
-def run (r : Reg Id) (as : List Action) : Reg Id := runWith H true r as
-def runOrig (r : Reg Id) (as : List Action) : Reg Id := runWith H false r as
 
 /-! ### genesis (x/aggregate/genesis.go, types/genesis.go) -/
 
@@ -432,7 +407,55 @@ def initGenesis (r : Reg Id) : List Pair → Option (Reg Id)
       initGenesis { r with pairs := r.pairs.ins id p, byDen := r.byDen.insAll p.denoms id, byErc := r.byErc.ins p.addr id } ps
 
 /-- ExportGenesis: `GetAllTokenPairs` (store order; the order is irrelevant for the theorems) -/
-def exportGenesis (r : Reg Id) : List Pair := r.pairs.map (·.2)
+def exportGenesis (r : Reg Id) : List Pair := (Map.entries r.pairs).map (·.2)
+
+/-- the module store emptied (params and bank metadata are other stores) -/
+def wipe (r : Reg Id) : Reg Id := { r with pairs := [], byErc := [], byDen := [] }
+
+/-- RESTART of the module in the middle of a history: `ExportGenesis` → (JSON, `Validate`: checked on the real code and by
+the driver) → empty store → `InitGenesis`. `none` = InitGenesis panicked. Theorem `restart_identity`: on a consistent
+registry this is the identity. -/
+def restart (r : Reg Id) : Option (Reg Id) := initGenesis H (wipe r) (exportGenesis r)
+
+
+
+/-! ### actions and runs -/
+
+inductive Action where
+  | setParams (enable : Bool)
+  | bankMeta (m : Meta)                  -- environment: some other module / genesis writes bank metadata
+  | registerCoin (vb hasSupply isEvmDenom deployOk : Bool) (deployAddr : Addr) (deployStr : String) (m : Meta)
+  | addCoin (vb hasSupply isEvmDenom : Bool) (contractHex : String) (m : Meta)
+  | registerERC20 (vb : Bool) (addr : Addr) (addrStr : String) (q : Option ERC20Data) (sanitized denom desc : String) (mdValid : Bool)
+  | toggle (vb : Bool) (tokenHex : String)
+  | update (vb : Bool) (old new : Addr) (newStr : String) (q : Option ERC20Data) (descOld descNew : String)
+  | convert (vb : Bool) (tokenHex denomHex : String) (live : List Addr)
+  | restart                              -- the module is restarted from its own export (see `restart`)
+  deriving Repr
+
+/-- one governance action / conversion message; `fixed` selects the repaired UpdateTokenPairERC20 -/
+def stepWith (fixed : Bool) (r : Reg Id) : Action → Reg Id × Status
+  | .setParams b => ({ r with enabled := b }, .ok)
+  | .bankMeta m => ({ r with metas := r.metas.ins m.base m }, .ok)
+  | .registerCoin vb hs ev dk a as m => registerCoin H r vb hs ev dk a as m
+  | .addCoin vb hs ev c m => addCoin H r vb hs ev c m
+  | .registerERC20 vb a as q s d ds mv => registerERC20 H r vb a as q s d ds mv
+  | .toggle vb t => toggleRelay H r vb t
+  | .update vb o n ns q d1 d2 => if fixed then updateERC20 H r vb o n ns q d1 d2 else updateERC20Orig H r vb o n ns q d1 d2
+  | .convert vb t d l => convert H r vb t d l
+  | .restart => match restart H r with
+    | some r' => (r', .ok)
+    | none => (r, .panic)
+
+def step (r : Reg Id) (a : Action) : Reg Id × Status := stepWith H true r a
+def stepOrig (r : Reg Id) (a : Action) : Reg Id × Status := stepWith H false r a
+
+def runWith (fixed : Bool) (r : Reg Id) : List Action → Reg Id
+  | [] => r
+  | a :: as => runWith fixed (stepWith H fixed r a).1 as
+
+def run (r : Reg Id) (as : List Action) : Reg Id := runWith H true r as
+def runOrig (r : Reg Id) (as : List Action) : Reg Id := runWith H false r as
 
 end
 
